@@ -166,6 +166,26 @@ struct Wrapped {
     n: u8,
 }
 
+/// a type that serializes as whatever its Display prints (`Serializer::collect_str`)
+struct ShowAs(&'static str);
+
+impl Serialize for ShowAs {
+    fn serialize<S: serde::Serializer>(&self, s: S) -> Result<S::Ok, S::Error> {
+        s.collect_str(self.0)
+    }
+}
+
+#[derive(Serialize)]
+enum OddNames {
+    #[serde(rename = "")]
+    Empty(u8, u8),
+    #[serde(rename = " ")]
+    Blank { x: u8 },
+    #[serde(rename = "")]
+    #[allow(dead_code)]
+    Never,
+}
+
 #[derive(Serialize)]
 struct UnitStruct;
 
@@ -263,6 +283,13 @@ pub fn cases() -> Vec<TypeCase> {
         case("flattened enum: tuple variant", &Tagged { id: 7, shape: Shape::Pair(-1, 1), name: "p" }),
         case("internally tagged newtype holding an enum", &Outer::Wrap(Wrapped { inner: Shape::Circle { radius: 1 }, n: 2 })),
         case("internally tagged newtype holding a unit variant", &Outer::Wrap(Wrapped { inner: Shape::Unit, n: 2 })),
+        case("collect_str: plain text", &ShowAs("plain")),
+        case("collect_str: text that reads like a timestamp with an offset", &ShowAs("2015-07-30T05:26:13+02:00")),
+        case("collect_str: text that reads like a number", &vec![ShowAs("12"), ShowAs("1.5"), ShowAs("true"), ShowAs("")]),
+        case("chrono date-time with a fixed offset", &chrono::DateTime::parse_from_rfc3339("2015-07-30T05:26:13+02:00").unwrap()),
+        case("format_args through collect_str", &serde_json::json!({"k": format!("{}", format_args!("{}-{}", 2015, "07"))})),
+        case("variant renamed to the empty string", &OddNames::Empty(1, 2)),
+        case("variant renamed to a blank", &OddNames::Blank { x: 1 }),
         case("unit struct", &UnitStruct),
         case("newtype struct", &NewType(u64::MAX)),
         case("tuple struct", &TupleStruct(i8::MIN, "s".into(), Some(()))),
